@@ -487,6 +487,7 @@ def run(m, tier):
     results.append(prog_rules.roundtrip_rule(m, "C02.R26", tier, tokens=True))
     from rules import reader_interp
     results.append(reader_interp.free_rule(m, "C02.R27", tier))
+    results.append(engine_tables.separator_rule(m, "C02.R28"))
     expl = ("Decides structural clauses of C02 -- no place where content is dropped, duplicated or case-folded: literal-bearing leaves "
             "store the input text without case folding; in all functions that tokenise a line, no child node is built from text that "
             "still carries placeholders (path-sensitive may-taint with the map call as sanitiser); Program.match returns what it "
